@@ -3,7 +3,8 @@
    monitored_item.rs `validate_filter`, `check_for_data_change`).
 
    Model of the code as committed (after "fix: data change filters that can never report were
-   accepted").  f64 are Flocq binary64; `a - b`, `abs`, `<=` are Flocq's IEEE operations
+   accepted", "fix: an infinite absolute deadband was accepted ..." and "fix: a deadband filter on
+   a non-numeric value reported every sample").  f64 are Flocq binary64; `a - b`, `abs`, `<=` are Flocq's IEEE operations
    (round to nearest even).  A sampled DataValue is (value, status, server timestamp), each
    optional as in the Rust struct; the comparison of the code looks at nothing else. *)
 From Coq Require Import List ZArith Bool Lia.
